@@ -158,7 +158,7 @@ def spellings(ctx: Ctx) -> None:
     cls = classes()
     lm = torch.tensor([-0.5, -0.125, 0.0, 0.25], dtype=DT)
     mlm = torch.tensor([-0.25, -0.125, 0.5, 0.25], dtype=DT)
-    t, v, K = 0.25, 0.5, 2.0
+    t, v, K = 0.25, 0.5, 1.1                  # a strike that float32 cannot represent: float64 inputs must see the double
     for p, (_, mcls) in cls.items():
         for call in ([True, False] if p in PUT_OFFERED else [True]):
             m = mcls(call=call, strike=K)
@@ -214,7 +214,12 @@ def check(ctx: Ctx) -> None:
         raise MachineryError("no homogeneity obligation")
     modules_on_lattice(ctx, grid)
     bs_common.positional_forms(ctx, grid)
-    spellings(ctx)
+    torch.set_default_dtype(torch.float32)       # the library's default: float64 INPUTS must still be priced in float64
+    try:
+        spellings(ctx)
+        bs_common.strike_spelling(ctx, "price")
+    finally:
+        torch.set_default_dtype(torch.float64)
     for r in recs:
         ctx.distinct.add(json.dumps([r["p"], r["call"], r["strike"], r["built"], r["meth"], sorted(r["given"])]))
     for r in alg.records:
